@@ -21,7 +21,7 @@ CHAIN_NOTE = "Trusted: the hand-written reference model sim/src/model/chain.rs (
 def chain(text):
     return ("chainsim", True, "DESIGN.md §3", text + " The whole chain runs real code (App, Router, WasmKeeper, BankKeeper, StakeKeeper, transactional overlay, ContractWrapper) under a seeded operation schedule with injected faults; every step is refined against the reference model. Seeded sampling: evidence, not proof.", CHAIN_NOTE)
 CHECKS.update({
- "C01": chain("Errors are injected at PRNG-chosen points of generated message trees and, for swept trees, at every single node (body and reply) from the same restored snapshot; on Err the root store must be byte-identical to the pre-call snapshot, on Ok every modelled effect must be observable; execute_multi order and per-message responses are compared with the model."),
+ "C01": chain("Errors are injected at PRNG-chosen points of generated message trees and, for swept trees, at every single node (body and reply) and at every single module call the tree makes (bank transfers incl. attached funds, staking, custom, ibc, gov, stargate, module queries), each variant from the same restored snapshot; on Err the root store must be byte-identical to the pre-call snapshot, on Ok every modelled effect must be observable; execute_multi order and per-message responses are compared with the model."),
  "C02": chain("Failure sets over sub-message trees with all four reply_on modes, failures inside replies and failures caught at outer levels; final balances, registry and contract storage must equal the model whose sub-message execution restores a snapshot on failure; in-call reads and queries of later siblings are compared too."),
  "C03": chain("The out-of-band invocation trace (not rolled back) is compared record by record with the model's depth-first trace: reply count, position, dispatcher, id, payload, Ok/Err, events and data carried inside Reply."),
  "C04": chain("AppResponse events and data of every top-level call and the events/data inside every Reply are compared with the model's composition rules (entry-point event, wasm event, wasm-<type> events with contract address first, sub-message then reply events, dropped events of failed sub-messages, last-reply-data rule, execute/instantiate envelopes)."),
@@ -29,10 +29,10 @@ CHECKS.update({
  "C08": chain("Several contracts (same and different code) write adversarial keys, including suffixes of real raw root keys of bank, registry and other contracts; after every step dump_wasm_raw, WasmQuery::Raw, contract_storage accessors and in-call reads must agree with the model, and every changed root key must be explained by a modelled change of exactly that entity."),
  "C09": chain("Bank-heavy histories (mint, send, burn, contract-initiated transfers in trees that may fail, repeated denominations, zero coins, self-transfers, never-seen recipients, amounts around the balance); after every step Balance, AllBalances and Supply must agree with each other and with the model; rejected operations leave the root store byte-identical."),
  "C10": chain("Queries scripted at the entry of every node are compared with the model's transactional state at that point (funds just received, effects of completed siblings, nothing of rolled-back children); App-level query batteries of every kind are asked twice and must leave the root digest and write counter unchanged and equal the committed model state."),
- "C11": chain("Histories of store_code / store_code_with_id (gaps, 0, duplicates) / duplicate_code followed by instantiate and instantiate2 of every id (nested, failing, rolled back, salts reused, shared checksums); returned ids, usability, address freshness, duplicate rejection without effect and recorded contract data are checked against the model."),
+ "C11": chain("Histories of store_code / store_code_with_id (gaps, 0, duplicates) / duplicate_code followed by instantiate and instantiate2 of every id (nested, failing, rolled back, salts reused, shared checksums); returned ids, usability, address freshness, duplicate rejection without effect, recorded contract data and the salted address being a function of (checksum, creator, salt) across rolled-back and repeated instantiations are checked against the model."),
  "C12": chain("Admins, former admins, strangers and contracts (via sub-message) race for Migrate / UpdateAdmin / ClearAdmin on contracts with and without admin; outcome, registry, storage and the code tag serving every later invocation are compared with the model."),
  "C13": chain("Strings from an adversarial pool (whitespace, NBSP, zero-width space, underscores in any position, 0-2 byte boundaries, unicode) are placed on attributes, event attributes and event types at every entry point and depth; the call must fail exactly when the model predicate says so, with the rollback of any other error, and accepted strings must surface unchanged."),
- "C17": chain("Recording module shims with a per-run accept/fail plan are plugged into every router seam through the real AppBuilder; messages and queries of every kind originate at top level, from contracts typed for the chain's custom message and from Empty-typed contracts lifted by ContractWrapper; the module-call trace (kind, sender, payload, exactly once) and the caller-visible outcome are compared with the model."),
+ "C17": chain("Recording module shims are plugged into every router seam through the real AppBuilder; behind each recorder answers either a stub with a per-run accept/fail plan or the repository's own AcceptingModule / FailingModule / StargateAccepting / StargateFailing / CachingCustomHandler (whose recorded state is compared with the recorder's); messages and queries of every kind originate at top level, from contracts typed for the chain's custom message and from Empty-typed contracts lifted by ContractWrapper; the module-call trace (kind, sender, payload, exactly once) and the caller-visible outcome are compared with the model."),
 })
 STAKE_NOTE = "Trusted: the exact integer model in sim/src/engines/stakesim.rs; shown values are read through public queries (and StakeKeeper::get_rewards when the delegation query hides a sub-token delegation). Bounds: 2-5 delegators x 2-4 validators, <= 120 steps, <= 10 simulated years, amounts <= 10^9, <= 5 slashes per validator with <= 3 decimals (keeps stakes exact multiples of 10^-15 token), tolerance 10^-9 token on reward bounds."
 def stake(text):
@@ -46,7 +46,7 @@ CHECKS["C19"] = ("twinsim", True, "DESIGN.md §6 (C19)",
   "The same explicit chainsim / stakesim operation list is executed on independent instances: sequentially, interleaved step by step by the seeded scheduler, with a differently configured noise instance in between, with the twin created late, and (one run in five) in two fresh child processes that differ only in whether the noise instance ran first. Per-step digests of everything observable and the final root store bytes must be equal. Seeded sampling: evidence, not proof.",
   "Trusted: digest collisions are ignored (64-bit FNV). A dependence on wall-clock time coarser than a run would not show (the crate never reads a clock; there is no seam to own).")
 CHECKS["C20"] = ("buildsim", True, "DESIGN.md §6 (C20)",
-  "A seeded schedule (subset, order, repeats) of builder steps is applied to one object: ContractWrapper with tagged handlers (all 7 with_* steps, Empty and custom chain message type, both base constructors), AppBuilder with default-typed components carrying distinguishable values (all 11 steps, run-time order), and AppBuilder with recording components in 8 compiled orders with with_block inserted at seeded positions. The built object must hold the last supplied value per slot, init must run once against the supplied storage/api, and the probe transcript must equal the canonical order's. The schedule of order-sensitive steps is the only thing varied (no faults, no clock).",
+  "A seeded schedule (subset, order, repeats) of builder steps is applied to one object: ContractWrapper with tagged handlers (all 7 with_* steps, Empty and custom chain message type, both base constructors), AppBuilder with default-typed components carrying distinguishable values (all 11 steps, run-time order), and AppBuilder with recording components in 8 compiled orders with with_block / with_api / with_storage inserted at seeded positions. The built object must hold the last supplied value per slot, init must run once against the supplied storage/api, and the probe transcript must equal the canonical order's. The schedule of order-sensitive steps is the only thing varied (no faults, no clock).",
   "Trusted: the last-step-wins table; cosmwasm_std mocks. Slots whose replacement changes the builder's type are covered by compiled orders only.")
 
 ALL = ["C%02d" % i for i in range(1, 21)]
